@@ -359,6 +359,12 @@ impl<'a> Model<'a> {
         // Internal formulas are R1C1 and not anchored to a cell; we parse them
         // in the context of the *source* sheet (the parser already knows that
         // name) so that implicit references resolve to the source sheet index.
+        // They are also always in the default language ("en") and locale ("en"),
+        // whatever the active ones are (see `parse_formulas`).
+        let locale = self.locale;
+        let language = self.language;
+        self.parser.set_locale(get_default_locale());
+        self.parser.set_language(get_default_language());
         self.parser.set_lexer_mode(LexerMode::R1C1);
         let cell_reference = CellReferenceRC {
             sheet: source_name.clone(),
@@ -373,6 +379,8 @@ impl<'a> Model<'a> {
         }
         new_worksheet.shared_formulas = shared_formulas;
         self.parser.set_lexer_mode(LexerMode::A1);
+        self.parser.set_locale(locale);
+        self.parser.set_language(language);
 
         // Insert the copy right after the source sheet.
         let new_index = source_index as usize + 1;
